@@ -120,6 +120,10 @@ def host_classes():
         return dict(y=tagged(core, primals[0]))
       if k == 'plain':
         return dict(y=core(primals[0]))
+      if k.startswith('plain_fn:'):
+        # the differentiated function applied without any lifted transform (reference for modules that draw random numbers)
+        _, scalar, aux = k.split(':')
+        return dict(y=make_fn(self.n_primals, scalar == '1', aux == '1')(core, *primals))
       raise ValueError(k)
 
   _H = dict(Host=Host, make_fn=make_fn)
@@ -265,6 +269,77 @@ def run_case(ctx, i, rng):
       _check_published_once(ctx, desc, V, upd, inner)
 
 
+def run_noisy(ctx, i, rng):
+  """The differentiated module draws random numbers (make_rng noise, Dropout): the lifted autodiff must use exactly the keys the
+  plain function uses - one draw per call site - so that values, aux and gradients equal JAX autodiff of the un-lifted function
+  run inside the same host with the same rngs."""
+  import jax
+  import jax.numpy as jnp
+  from flax.core import unfreeze
+  H = host_classes()
+  Host = H['Host']
+  kind = ['value_and_grad', 'grad', 'vjp', 'jvp'][i % 4]
+  d = rng.randint(1, 3)
+  inner = gen_inner(rng, d)
+  ops = list(inner[2])
+  for _ in range(rng.randint(1, 2)):
+    ops.insert(rng.randint(0, len(ops)), rng.choice([('noise', 'noise'), ('noise', 'other'), ('dropout', 0.5)]))
+  inner = (inner[0], inner[1], tuple(ops))
+  n_primals = rng.randint(1, 2)
+  has_aux = kind != 'jvp' and rng.random() < 0.4
+  desc = dict(kind=kind, inner=repr(inner)[:600], d=d, n_primals=n_primals, has_aux=has_aux, noisy=True)
+  with ctx.case('noisy', i, desc, nontrivial=True):
+    nr = np.random.default_rng(rng.getrandbits(32))
+    primals = make_primals(nr, n_primals, d, b=3)
+    rngs = {'noise': jax.random.key(1000 + i), 'other': jax.random.key(2000 + i), 'dropout': jax.random.key(3000 + i)}
+    V = unfreeze(Host('plain', inner, d).init(dict(rngs, params=jax.random.key(i)), primals, None))
+    scalar = kind in ('grad', 'value_and_grad')
+    ref_host = Host('plain_fn:%d:%d' % (scalar, has_aux), inner, d, n_primals)
+
+    def ref_fn(*ps):
+      o, _ = ref_host.apply(V, ps, None, rngs=rngs, mutable=['state'])
+      return o['y']
+
+    host = Host(kind, inner, d, n_primals, has_aux, ('params',))
+    if scalar:
+      out, _ = host.apply(V, primals, None, rngs=rngs, mutable=['state'])
+      ctx.op('nn.%s(noisy module)' % kind)
+      argnums = tuple(range(n_primals))
+      if has_aux:
+        (v_r, aux_r), g_r = jax.value_and_grad(ref_fn, argnums=argnums, has_aux=True)(*primals)
+      else:
+        (v_r, g_r), aux_r = jax.value_and_grad(ref_fn, argnums=argnums)(*primals), None
+      ctx.check(close(out['in_grads'], tuple(g_r)), 'grad:input_gradients:noisy_module', lambda: dict(case=desc))
+      if kind == 'value_and_grad':
+        ctx.check(close(out['y'], v_r), 'grad:value:noisy_module', lambda: dict(case=desc, got=np.asarray(out['y']).tolist(), want=np.asarray(v_r).tolist()))
+      if has_aux:
+        ctx.check(close(out['aux'], aux_r), 'grad:aux:noisy_module', lambda: dict(case=desc))
+    elif kind == 'vjp':
+      y_shape = jax.eval_shape(lambda: ref_fn(*primals))
+      y0 = y_shape[0] if has_aux else y_shape
+      ct = jnp.asarray(nr.normal(size=y0.shape).astype(np.float32))
+      out, _ = host.apply(V, primals, ct, rngs=rngs, mutable=['state'])
+      ctx.op('nn.vjp(noisy module)')
+      if has_aux:
+        y_r, bwd_r, aux_r = jax.vjp(ref_fn, *primals, has_aux=True)
+      else:
+        (y_r, bwd_r), aux_r = jax.vjp(ref_fn, *primals), None
+      ctx.check(close(out['y'], y_r), 'vjp:primal:noisy_module', lambda: dict(case=desc))
+      ctx.check(close(out['in_grads'], tuple(bwd_r(ct))), 'vjp:input_cotangent:noisy_module', lambda: dict(case=desc))
+      if has_aux:
+        ctx.check(close(out['aux'], aux_r), 'vjp:aux:noisy_module', lambda: dict(case=desc))
+    else:
+      primals_t = jax.tree_util.tree_map(lambda a: jnp.asarray(nr.normal(size=np.shape(a)).astype(np.float32)), primals)
+      out, _ = host.apply(V, primals, (primals_t, {}), rngs=rngs, mutable=['state'])
+      ctx.op('nn.jvp(noisy module)')
+      y_r, yt_r = jax.jvp(ref_fn, primals, primals_t)
+      ctx.check(close(out['y'], y_r), 'jvp:primal:noisy_module', lambda: dict(case=desc))
+      ctx.check(close(out['y_t'], yt_r), 'jvp:tangent:noisy_module', lambda: dict(case=desc))
+    # the same call again gives the same numbers (draws are a function of the call site, not of a hidden counter)
+    out2, _ = host.apply(V, primals, ct if kind == 'vjp' else ((primals_t, {}) if kind == 'jvp' else None), rngs=rngs, mutable=['state'])
+    ctx.check(close(out2, out), 'noisy_module:not_reproducible', lambda: dict(case=desc))
+
+
 def _check_published_once(ctx, desc, V, upd, inner):
   """Counters of the differentiated sub-module advance by exactly the number of executions of one forward pass."""
   from flax.core import unfreeze
@@ -343,6 +418,8 @@ def run_custom_vjp_inputs(ctx, i, rng):
 
 
 def run(ctx):
+  for i in ctx.indices(48 if ctx.tier == 'quick' else 480, 'noisy'):
+    run_noisy(ctx, i, ctx.rng('noisy', i))
   for i in ctx.indices(15 if ctx.tier == 'quick' else 150, 'custom_vjp_inputs'):
     run_custom_vjp_inputs(ctx, i, ctx.rng('cvi', i))
   for i in ctx.indices(240 if ctx.tier == 'quick' else 3600, 'case'):
